@@ -26,7 +26,7 @@ def mine(key, theorem):
 
 
 def run(ctx):
-    pool_check.run_pool_check(ctx, 'C12', 240, 1500, 'Props/C12.v', mine)
+    pool_check.run_pool_check(ctx, 'C12', 240, 3000, 'Props/C12.v', mine)
 
 
 def replay(ctx, rp):
